@@ -18,11 +18,12 @@ def litert_abort_finding(rep):
 
 def run(rep):
     litert_abort_finding(rep)
-    gc.small_carriers(rep, 'C01'); gc.insert_obligations(rep, 'C01'); gc.performer_obligations(rep, 'C01'); gc.names_obligations(rep, 'C01'); gc.tensorinfo_obligations(rep, 'C01'); gc.vertical_obligations(rep, 'C01'); gc.produce_obligations(rep, 'C01')
+    gc.small_carriers(rep, 'C01'); gc.insert_obligations(rep, 'C01'); gc.performer_obligations(rep, 'C01'); gc.names_obligations(rep, 'C01'); gc.signature_obligations(rep, 'C01'); gc.tensorinfo_obligations(rep, 'C01'); gc.vertical_obligations(rep, 'C01'); gc.produce_obligations(rep, 'C01'); gc.compose_obligations(rep, 'C01')
     gc.bounded_insert(rep); gc.e2e_standin(rep, 'C01', sampled3=(300 if rep.tier == 'thorough' else 0))
     gc.canaries(rep); gc.performer_canaries(rep)
     rep.assume('LiteRT allocate_tensors/invoke succeed on a structurally well-formed, dtype-consistent model (external C++ runtime; exercised only by the bounded end-to-end stand-in)')
-    rep.assume('generator -> performer composition (InstValid / laminar instruction lists, _update_instructions, _apply_transformations, transform_graph loops) is covered by the bounded end-to-end stand-in only')
+    rep.assume('generator: WHAT consumer grouping (_group_consumer_transformations) computes is not under a contract: the two builders take "every group is a non-empty set of positions of param.consumers" as precondition (its frame and list-valued return are discharged); laminarity of instruction lists and LiteRT are covered by the bounded end-to-end stand-in only')
+    rep.assume('typing: a Python list object is never a TransformationInst record (used to discharge the distinctness preconditions of _apply_vertical_optimization at its call site)')
     rep.trust('flatbuffer object-API classes are plain attribute bags; numpy int32 index arrays behave as Python int lists for indexing, len, `in`, item assignment')
     rep.trust('flatbuffer serialisation / parsing is faithful (TensorFlow flatbuffer_utils)')
 def replay(payload):
